@@ -10,7 +10,9 @@ import glob
 import os
 from dataclasses import dataclass
 
-SRC = "/repo/src/picosvg"
+import os as _os
+
+SRC = _os.environ.get("PYVC_REPO", "/repo") + "/src/picosvg"
 _MUTATORS = {"append", "extend", "insert", "pop", "remove", "clear", "update", "add", "discard", "setdefault", "popitem", "sort", "reverse", "__setitem__", "appendleft", "popleft"}
 _ORDER_FREE_FUNCS = {"any", "all", "len", "sorted", "min", "max", "sum", "set", "frozenset", "bool", "isinstance"}
 _SET_METHODS_ORDER_FREE = {"add", "discard", "remove", "update", "issubset", "issuperset", "isdisjoint", "union", "intersection", "difference", "symmetric_difference", "copy", "clear", "__contains__"}
